@@ -1272,9 +1272,9 @@ def main(tier: str) -> int:
             plan = [('dict', g0, n0, None, 30), ('maildir++', g0, n0, 400, 10),
                     ('maildirfs', g0, n0, 120, 5), ('maildir++kw', g1, n1, 250, 7)]
         else:
-            plan = [('dict', g0, n0, None, 240), ('maildir++', g0, n0, 15000, 240),
-                    ('maildirfs', g0, n0, 3000, 60), ('maildir++kw', g1, n1, 6000, 120),
-                    ('maildirfskw', g1, n1, 1500, 40)]
+            plan = [('dict', g0, n0, None, 240), ('maildir++', g0, n0, None, 300),
+                    ('maildirfs', g0, n0, 4000, 80), ('maildir++kw', g1, n1, 12000, 200),
+                    ('maildirfskw', g1, n1, 2000, 50)]
         only = [b for b in os.environ.get('VERIF_C10_BACKENDS', '').split(',') if b]
         if only:        # debugging aid: restrict the backends
             plan = [p for p in plan if p[0] in only]
@@ -1286,9 +1286,9 @@ def main(tier: str) -> int:
             splan = [('dict', False, 300, 12), ('maildir++', False, 100, 6),
                      ('maildirfs', False, 50, 4), ('maildir++kw', True, 100, 6)]
         else:
-            splan = [('dict', False, 4000, 100), ('maildir++', False, 1500, 80),
-                     ('maildirfs', False, 600, 40), ('maildir++kw', True, 1500, 80),
-                     ('maildirfskw', True, 400, 30)]
+            splan = [('dict', False, 6000, 120), ('maildir++', False, 2500, 100),
+                     ('maildirfs', False, 800, 50), ('maildir++kw', True, 2500, 100),
+                     ('maildirfskw', True, 500, 30)]
         if only:
             splan = [p for p in splan if p[0] in only]
         # one TLC simulation per (KwPermitted, exhibited policy), run side by side
